@@ -32,14 +32,18 @@ def rtRowOK (r : Row) : Bool :=
 /-- **Table obligation** (all 200+ rows, including the M/A/F/RV64 rows of the same operand types). -/
 theorem table_rt_rows : ∀ r ∈ table, rtRowOK r = true := by decide +kernel
 
-def fenceNone : Row := { instr := "fence", opcode := 0x0000000f#32, mask := 0xffffffff#32, type := .OP_NONE, flags := 0 }
+def fenceNone : Row := { instr := "fence", opcode := 0x0ff0000f#32, mask := 0xffffffff#32, type := .OP_NONE, flags := 0 }
 def fenceFlags : Row := { instr := "fence", opcode := 0x0000000f#32, mask := 0xf00fffff#32, type := .OP_FENCE, flags := 0 }
 theorem table_fence_rows : ∀ r ∈ table, (r.instr == "fence") = true → r = fenceNone ∨ r = fenceFlags := by
   decide +kernel
 
 theorem table_fence_type : ∀ r ∈ table, r.type = .OP_FENCE → (r.instr == "fence") = true := by decide +kernel
 
-theorem fence_flags_fault (ctx : Ctx) (f : BitVec 8) (hf : f ≠ 0) : Asm.encode ctx ⟨"fence", [], f⟩ = .fault := by
+/-- what the assembler model emits for `fence` with the flag set `f` (`f = 0`: no operands, the alias row
+    `fence iorw, iorw`; otherwise the OP_FENCE row with the flags in bits 27..20) -/
+theorem fence_encode (ctx : Ctx) (f : BitVec 8) :
+    Asm.encode ctx ⟨"fence", [], f⟩ =
+      .ok (if f = 0 then 0x0ff0000f#32 else 0x0000000f#32 ||| (f.zeroExtend 32 <<< 20)) := by
   rw [Asm.encode]
   simp only [show ("fence" == "li" || "fence" == "call" || "fence" == "tail") = false by decide, Bool.false_eq_true,
     if_false, List.length_nil, show ¬ (0 > 6) by decide]
@@ -47,9 +51,30 @@ theorem fence_flags_fault (ctx : Ctx) (f : BitVec 8) (hf : f ≠ 0) : Asm.encode
   have : table.filter (fun r => r.instr == "fence") = [fenceNone, fenceFlags] := by decide +kernel
   simp only at this ⊢
   rw [this]
-  have hf' : (f == 0) = false := by simpa using hf
-  simp [encodeRows, fenceNone, fenceFlags, modelled, hf']
-  intro h0; exact absurd h0 hf
+  by_cases hf : f = 0
+  · subst hf; rfl
+  · have hf' : (f == 0) = false := by simpa using hf
+    simp [encodeRows, fenceNone, fenceFlags, modelled, hf', hf, rowAction]
+    split <;> rfl
+
+/-- **C01 (iii), `fence`.**  `fence` with naken_asm's flag operands (bits 7..0 = pi po pr pw si so sr sw), or
+    without operands (the manual's pseudo-instruction `fence iorw, iorw`), is assembled to the word the
+    architecture's decoder reads back as that FENCE.  (Both defects recorded earlier for `fence` are repaired in
+    /repo: commits 9e8005a and c471bd0.) -/
+theorem rv32i_fence_sound (ctx : Ctx) (f : BitVec 8) :
+    ∃ w, Asm.encode ctx ⟨"fence", [], f⟩ = .ok w ∧ Arch.decode w = some (meaningFence f) ∧
+      w = Arch.encode (meaningFence f) := by
+  refine ⟨_, fence_encode ctx f, ?_⟩
+  have h2 : (if f = 0 then 0x0ff0000f#32 else 0x0000000f#32 ||| (f.zeroExtend 32 <<< 20)) =
+      Arch.encode (meaningFence f) := by
+    unfold meaningFence
+    split
+    · decide
+    · simp only [Arch.encode]; bv_decide
+  rw [h2]
+  exact ⟨Arch.decode_encode _, rfl⟩
+
+example : Asm.encode ⟨0#32⟩ ⟨"fence", [], 0x21#8⟩ = .ok 0x0210000f#32 := by rw [fence_encode]; decide
 
 theorem encode_rows' {ctx : Ctx} {s : Stmt} {w : BitVec 32}
     (hn : (s.mnemonic == "li" || s.mnemonic == "call" || s.mnemonic == "tail") = false)
@@ -61,12 +86,28 @@ theorem encode_rows' {ctx : Ctx} {s : Stmt} {w : BitVec 32}
   · cases h
   · rw [encodeRows_filter] at h; exact h
 
+/-- the one word whose printed form loses information: `0x0000000f` is a FENCE with empty predecessor and
+    successor sets; the OP_FENCE row prints it as `fence` with no flags, which the assembler reads as the
+    pseudo-instruction `fence` = `fence iorw, iorw` (0x0ff0000f).  Both words decode to the same statement
+    (mnemonic `fence`, no operands), which is the criterion of C07. -/
+def lossyFence (w w' : BitVec 32) : Prop := w = 0x0000000f#32 ∧ w' = 0x0ff0000f#32
+
+theorem toStmt_fence_iorw : Disasm.toStmt 0x0ff0000f#32 = some ⟨"fence", [], 0⟩ := by decide +kernel
+theorem toStmt_fence_empty : Disasm.toStmt 0x0000000f#32 = some ⟨"fence", [], 0⟩ := by decide +kernel
+
 /-- **C07 (and C01 i) on the structured level.**  For every 32-bit word `w`: if the assembler accepts the
     decoder's reading of `w` (`Disasm.toStmt`: mnemonic and operands of the printed text as `get_operands` takes
-    them) at the same address, the bytes it produces are `w` again — hence they decode to the same instruction. -/
+    them) at the same address, the bytes it produces decode to the same statement again; they are `w` itself
+    except for the single word `0x0000000f` (`lossyFence`). -/
 theorem rv32i_decode_encode_decode (ctx : Ctx) (w w' : BitVec 32) (s : Stmt)
-    (hs : Disasm.toStmt w = some s) (he : Asm.encode ctx s = .ok w') : w' = w ∧ Disasm.toStmt w' = some s := by
-  suffices h : w' = w by subst h; exact ⟨rfl, hs⟩
+    (hs : Disasm.toStmt w = some s) (he : Asm.encode ctx s = .ok w') :
+    (w' = w ∨ lossyFence w w') ∧ Disasm.toStmt w' = some s := by
+  suffices h : w' = w ∨ lossyFence w w' by
+    rcases h with h | ⟨h1, h2⟩
+    · subst h; exact ⟨Or.inl rfl, hs⟩
+    · subst h1; subst h2
+      rw [toStmt_fence_empty] at hs
+      rw [← hs]; exact ⟨Or.inr ⟨rfl, rfl⟩, toStmt_fence_iorw⟩
   unfold Disasm.toStmt at hs
   split at hs
   · cases hs
@@ -87,19 +128,21 @@ theorem rv32i_decode_encode_decode (ctx : Ctx) (w w' : BitVec 32) (s : Stmt)
     · subst e
       simp only [fenceNone] at hs hw
       injection hs with hs; subst hs
-      have : Asm.encode ctx ⟨"fence", [], 0⟩ = .ok 0x0000000f#32 := rfl
-      rw [this] at he; injection he with he; subst he
-      bv_decide
+      rw [fence_encode] at he; injection he with he; subst he
+      simp only [if_true]
+      left; bv_decide
     · subst e
       simp only [fenceFlags] at hs hw
       injection hs with hs; subst hs
-      by_cases hz : (BitVec.truncate 8 (w >>> 20 &&& (255 : BitVec 32))) = 0
-      · rw [hz] at he
-        have : Asm.encode ctx ⟨"fence", [], 0⟩ = .ok 0x0000000f#32 := rfl
-        rw [this] at he; injection he with he; subst he
+      rw [fence_encode] at he; injection he with he; subst he
+      split
+      · rename_i hz
+        right
+        refine ⟨?_, rfl⟩
         bv_decide
-      · rw [fence_flags_fault ctx _ hz] at he; cases he
-  · have hfence' : (r.instr == "fence") = false := by simpa using hfence
+      · left; bv_decide
+  · left
+    have hfence' : (r.instr == "fence") = false := by simpa using hfence
     have hne : (r.opcode &&& r.mask != r.opcode) = false := by simp [hself]
     -- facts about the row, once its type is known to be an accepted one
     have facts : acceptedText r.type = true → rowsFor r.instr = [r] ∧ r.mask = expectedMask r.type ∧
@@ -176,7 +219,7 @@ theorem rv32i_decode_encode_decode (ctx : Ctx) (w w' : BitVec 32) (s : Stmt)
 /-- **C01 (i) on the structured level**: for an accepted statement, re-assembling the decoder's reading of the
     emitted word (when the assembler accepts it) gives the same word. -/
 theorem rv32i_fixpoint_structured (ctx : Ctx) (s s' : Stmt) (w w' : BitVec 32) (_h : Asm.encode ctx s = .ok w)
-    (hs : Disasm.toStmt w = some s') (he : Asm.encode ctx s' = .ok w') : w' = w :=
+    (hs : Disasm.toStmt w = some s') (he : Asm.encode ctx s' = .ok w') : w' = w ∨ lossyFence w w' :=
   (rv32i_decode_encode_decode ctx w w' s' hs he).1
 
 example : Disasm.toStmt 0x00a12423#32 = some ⟨"sw", [.xreg 10, .regOff 8 2], 0⟩ := by decide +kernel
